@@ -67,7 +67,10 @@ def run_case(kind, inp):
         return dict(expected='the reading of the file agrees with its content', observed=str(got)[:200], function='_import_from_file', what='reading')
     if (list(m.proj_lower_quotas), list(m.proj_upper_quotas), list(m.lec_lower_quotas), list(m.lec_targets), list(m.lec_upper_quotas)) != (I['plq'], I['puq'], I['llq'], I['tgt'], I['luq']):
         return dict(expected='quotas as written', observed='different', function='_import_from_file', what='quotas')
-    case = dict(instance=I, crits=inp['crits'], pc=inp['pc'], stab=inp['stab'])
+    # the criteria were drawn for another instance: keep the generous cut-off inside its admissible range 1..max rank of THIS instance
+    R = max(O.maxrank(I), 1)
+    crits = [[c, pos, ([min(ex[0], R)] if c == 'gen' and ex else ex)] for c, pos, ex in inp['crits']]
+    case = dict(instance=I, crits=crits, pc=inp['pc'], stab=inp['stab'])
     bad = LP.run_and_check(case, {'valid', 'status', 'stable', 'lex'})
     if bad: bad['what'] = 'lp-' + bad['what']; return bad
     rb = S.run_solver(I, ['-bf'] + (['-pc'] if inp['pc'] else []))
